@@ -404,3 +404,37 @@ impl Report {
 }
 
 pub type SharedReport = Mutex<Report>;
+
+// ------------------------- CacheTable: which hashes share a slot -------------------------
+/// The property does not say WHICH slot a hash is kept in, only that every hash has one.  The harness therefore never
+/// computes a slot itself: it finds out which hashes share a slot by watching evictions on a scratch table of the same
+/// size (write a, write b, is a gone?).  Class 0 is the class of hash 0 (whose slot an untouched table answers for).
+pub struct SlotProber {
+    t: chess::CacheTable<u8>,
+    pub reps: Vec<u64>,
+}
+
+impl SlotProber {
+    pub fn new(size: usize) -> SlotProber {
+        SlotProber { t: chess::CacheTable::new(size, 0u8), reps: vec![0] }
+    }
+    fn same_slot(&mut self, a: u64, b: u64) -> bool {
+        if a == b {
+            return true;
+        }
+        self.t.add(a, 1);
+        self.t.add(b, 2);
+        self.t.get(a).is_none()
+    }
+    /// class id of h; a hash that evicts no known representative founds a new class
+    pub fn class_of(&mut self, h: u64) -> usize {
+        for i in 0..self.reps.len() {
+            let r = self.reps[i];
+            if self.same_slot(h, r) {
+                return i;
+            }
+        }
+        self.reps.push(h);
+        self.reps.len() - 1
+    }
+}
